@@ -68,7 +68,7 @@ Definition run_xr_stream (fs : list bytes) : res (list bytes) :=
 (* mode xr_table: the text after the `xref` keyword up to (not including) the `trailer` keyword;
    the harness appends "trailer" and a dictionary, the model appends the keyword *)
 Definition run_xr_table (fs : list bytes) : res (list bytes) :=
-  rmap (fun r => map text_of_section (fst r)) (parse_xref_table (field fs 0 ++ 10 :: xr_kw_trailer)).
+  rmap (fun r => map text_of_section (fst r)) (parse_xref_table (mkLx 0 (field fs 0 ++ 10 :: xr_kw_trailer))).
 
 Definition text_of_resN (r : res N) : res bytes :=
   match r with
